@@ -1,15 +1,20 @@
 (** C09 -- Numbers keep their value across literal, print and conversion.
     PARTIAL.  Proved: the digit tables of the source are the intended bijections (regenerated and re-checked on every run);
     a literal's value is parse::<f64> of its ASCII spelling, converted once (no double rounding, leading zeros of the
-    fraction are part of the spelling); _স্ট্রিং yields the same text as printing; infinities and NaN are unprintable;
-    _সংখ্যা rejects what the float grammar rejects.
-    NOT proved: that the model of parse::<f64> rounds to nearest-even (it is SpecFloat's binary_normalize / SFdiv on exact
-    integers, whose correctness is Flocq's, not connected here), that the model of f64::to_string (flt2dec Dragon) prints
-    shortest digits that read back to the same double, and the plain-decimal shape of the printed text.  These are Rust
-    std functions: modelled, and tied by the f64 stream (bit-exact on >= 10^4 values per run) and by the numbers stream,
-    whose direct check of read-back equality on the implementation is the test of the round-trip statement. *)
+    fraction are part of the spelling) -- and that value IS the double nearest to the decimal number the digits spell,
+    ties to even (C09_literal_is_the_nearest_double, C09_plain_decimal_is_the_nearest_double: Proofs/NumNearest.v
+    connects the model's two roundings, SpecFloat.binary_normalize and SpecFloat.SFdiv on the exact integers N and
+    10^k, to Flocq's correctness theorems over the real numbers; this is the only place where the real-number axioms
+    of Coq's standard library are used); the same holds for any plain decimal text given to _সংখ্যা; _স্ট্রিং yields the
+    same text as printing; infinities and NaN are unprintable; _সংখ্যা rejects what the float grammar rejects.
+    NOT proved: that the model of f64::to_string (flt2dec Dragon) prints shortest digits that read back to the same
+    double, and the plain-decimal shape of the printed text.  This is a Rust std function: modelled, and tied by the f64
+    stream (bit-exact on >= 10^4 values per run) and by the numbers stream, whose direct check of read-back equality on
+    the implementation is the test of the round-trip statement. *)
+From Coq Require Import Reals.
+From Flocq Require Import Core.Core IEEE754.BinarySingleNaN.
 From Pakhi Require Import Base Float64 Syntax Tables Lexer Interp.
-From Pakhi.Proofs Require Import Num.
+From Pakhi.Proofs Require Import Num NumNearest.
 Local Open Scope nat_scope.
 
 Theorem C09_digit_tables :
@@ -57,3 +62,33 @@ Theorem C09_literal_examples :
   = [Some 4607407598781385933; Some 4562254508917369340; Some 4612316522375219773; Some 4609434218613702656; Some 9223372036854775808]%Z.
 Proof. exact literal_examples. Qed.
 Print Assumptions C09_literal_examples.
+
+(** a plain decimal text -- optional '-', integer digits, optionally a point and fraction digits -- denotes the binary64
+    number nearest to the decimal number it spells, ties to even.  [decimal_text neg ip dotted fp] is the text,
+    [dec_real neg N k] the real number (+-) N / 10^k, [rnd64] rounding to nearest-even in binary64 (Flocq's [round] with
+    the format's exponent function), [SF2R radix2 v] the real value of the double v, [fits64] "no overflow". *)
+Theorem C09_plain_decimal_is_the_nearest_double : forall neg ip dotted fp,
+  all_digits ip -> all_digits fp -> ip ++ fp <> [] -> (dotted = false -> fp = []) ->
+  let N := digits_val 0 (ip ++ fp) in
+  let k := Z.of_nat (length fp) in
+  (- 400 <= Z.of_nat (length (strip_zeros (ip ++ fp))) - k)%Z ->
+  fits64 (dec_real neg N k) ->
+  exists v, parse_f64 (decimal_text neg ip dotted fp) = Some v /\ SF2R radix2 v = rnd64 (dec_real neg N k).
+Proof. exact plain_decimal_is_nearest. Qed.
+Print Assumptions C09_plain_decimal_is_the_nearest_double.
+
+(* texts with at most 300 integer digits do not overflow *)
+Theorem C09_reasonable_text_fits : forall neg ip fp, all_digits ip -> all_digits fp -> (length ip <= 300)%nat ->
+  fits64 (dec_real neg (digits_val 0 (ip ++ fp)) (Z.of_nat (length fp))).
+Proof. exact reasonable_text_fits. Qed.
+Print Assumptions C09_reasonable_text_fits.
+
+(* the literal the lexer accepts: its token's value is that nearest double *)
+Theorem C09_literal_is_the_nearest_double : forall rest line file v n, consume_num rest line file = Ok (v, n) ->
+  exists neg ip dotted fp,
+    all_digits ip /\ all_digits fp /\ ip ++ fp <> [] /\ (dotted = false -> fp = []) /\
+    parse_f64 (decimal_text neg ip dotted fp) = Some v /\
+    ((length ip <= 300)%nat -> (length fp <= 300)%nat ->
+     SF2R radix2 v = rnd64 (dec_real neg (digits_val 0 (ip ++ fp)) (Z.of_nat (length fp)))).
+Proof. exact literal_of_reasonable_length_is_nearest. Qed.
+Print Assumptions C09_literal_is_the_nearest_double.
